@@ -120,6 +120,10 @@ EXTRA = [
     'int a[] = { [({1;})] = 1, [(({2;}))] = 2 };',
     'int y[2] = { ({4;}), 1 };',
     'int f(int x){ switch (x) { case ({1;}): ; } do ; while (({1;})); switch (({1;})) ; ({1;}); }',
+    # pseudo-identifiers: the '*' of an unspecified array size, offsetof
+    "void f(int a[*], int [*]);",
+    "void g(double v[const *], long w[*][*]);",
+    "unsigned long z = offsetof(struct S, m.k[2]);",
     # consecutive declarators of different shape that start with the same token
     "void f(int *p, int *);",
     "typedef int T; int f(int (*T), int (T));",
